@@ -1,4 +1,5 @@
 """property id -> contract modules verified for it (order matters only for reporting)"""
 PROPERTIES = {
     "C01": ["contracts.c01"],
+    "C16": ["contracts.c16"],
 }
